@@ -1190,3 +1190,52 @@ def _unit_variants(fname):
 
 for _n in ("multiply", "divide", "true_divide"):
     add("unit", _n, **_unit_variants(_n))
+
+
+# --------------------------------------------------------------------------------------
+# 9. conversions and arithmetic operators on array quantities (pint/facets/plain/quantity.py:
+#    _convert_magnitude, ito, __iadd__/__imul__ ...): only the explicit in-place forms may
+#    touch the operand's array; values are decided like everything else
+# --------------------------------------------------------------------------------------
+import operator as _op
+
+
+def _ito_inv(npmod, a, u):
+    a.ito(u)
+    return a
+
+
+def _iop(opf):
+    def inv(npmod, a, b):
+        r = opf(a, b)
+        return r
+    return inv
+
+
+_same = lambda a, u: np.asarray(a, dtype=float)   # noqa: E731  (conversion keeps the physical value)
+add("op", "to", plain=V(lambda g: C(qx(g), QA("X", 1.0, as_unit=True)), KX,
+                        inv=lambda npmod, a, u: a.to(u), ref=_same, err=False, offset=False))
+add("op", "ito", plain=V(lambda g: C(qx(g, target=True), QA("X", 1.0, as_unit=True)), KX,
+                         inv=_ito_inv, ref=_same, err=False, offset=False))
+add("op", "m_as", plain=V(lambda g: C(qx(g), QA("X", 1.0, as_unit=True)), BARE,
+                          inv=lambda npmod, a, u: a.m_as(u), ref=lambda a, u: np.asarray(a) / u,
+                          meta=False, err=False, offset=False))
+add("op", "to_root_units", plain=V(lambda g: C(qx(g)), KX, inv=lambda npmod, a: a.to_root_units(),
+                                   ref=lambda a: np.asarray(a, dtype=float), offset=False))
+for _n, _f, _res in (("add", _op.add, KX), ("sub", _op.sub, KX)):
+    add("op", _n, plain=V(lambda g: (lambda s: C(QA("X", g.gen(s[0])), QA("X", g.gen(s[1]))))(
+        _bin_shapes(g)), _res, inv=_iop(_f), ref=_f, offset=False))
+    add("op", "i" + _n, plain=V(lambda g: (lambda s: C(QA("X", g.gen(s[0]), target=True),
+                                                      QA("X", g.gen(s[1]))))(_bin_shapes(g)),
+                                _res, inv=_iop(getattr(_op, "i" + _n)), ref=_f, offset=False))
+for _n, _f, _e in (("mul", _op.mul, 1), ("truediv", _op.truediv, -1)):
+    add("op", _n,
+        plain=V(lambda g: (lambda s: C(QA("X", g.gen(s[0])), QA("Y", g.gen(s[1]))))(_bin_shapes(g)),
+                U({"X": 1, "Y": _e}), inv=_iop(_f), ref=_f, offset=False),
+        scalar=V(lambda g: C(qx(g), float(g.gen(()))), KX, inv=_iop(_f), ref=_f, offset=False))
+    add("op", "i" + _n,
+        plain=V(lambda g: (lambda s: C(QA("X", g.gen(s[0]), target=True), QA("Y", g.gen(s[1]))))(
+            _bin_shapes(g)), U({"X": 1, "Y": _e}), inv=_iop(getattr(_op, "i" + _n)), ref=_f,
+            offset=False),
+        scalar=V(lambda g: C(qx(g, target=True), float(g.gen(()))), KX,
+                 inv=_iop(getattr(_op, "i" + _n)), ref=_f, offset=False))
